@@ -253,6 +253,28 @@ def _both_append_outputs(t):
 
 
 
+def minor_upgrade_triples():
+    """one side re-saved with nbformat 4.5 (cells get ids) while the other stays pre-4.5; both insert a similar cell at
+    the same place (and the mirrored / downgraded variants)"""
+    def cell(src, cid=None, kind='code'):
+        c = {'cell_type': kind, 'metadata': {}, 'source': src}
+        if kind == 'code': c.update({'execution_count': None, 'outputs': []})
+        if cid: c['id'] = cid
+        return c
+    def nb(cells, minor): return {'cells': cells, 'metadata': {}, 'nbformat': 4, 'nbformat_minor': minor}
+    out = []
+    f1 = "def f(x):\n    y = x + 1\n    return y\n"; f2 = "def f(x):\n    y = x + 2\n    return y\n"
+    for kind in ('code', 'markdown'):
+        base4 = nb([cell('a = 1', kind=kind)], 4)
+        old = nb([cell('a = 1', kind=kind), cell(f1, kind=kind)], 4)
+        new = nb([cell('a = 1', 'c0', kind=kind), cell(f2, 'n1', kind=kind)], 5)
+        out.append({'b': base4, 'l': old, 'r': new, 'src': 'crafted:minor_upgrade'})
+        out.append({'b': base4, 'l': new, 'r': old, 'src': 'crafted:minor_upgrade'})
+        base5 = nb([cell('a = 1', 'c0', kind=kind)], 5)
+        out.append({'b': base5, 'l': old, 'r': new, 'src': 'crafted:minor_downgrade'})
+        out.append({'b': base5, 'l': new, 'r': old, 'src': 'crafted:minor_downgrade'})
+    return out
+
 def record_touched_triples():
     """re-merges around an nbdime-conflicts record left by an earlier conflicted merge: base with / without a record,
     each side keeps, removes, edits or adds one (notebook and cell metadata), and a NEW metadata conflict arises"""
